@@ -49,6 +49,25 @@ struct Emitter {
   std::set<const Stmt *> Covered;
   unsigned CurBlock = 0;
   const FunctionDecl *CurFn = nullptr;
+  std::map<const VarDecl *, std::string> LocalNames; // unique per function (shadowing, macro re-declarations)
+
+  void collectLocals(const Stmt *S, std::map<std::string, unsigned> &Count) {
+    if (!S) return;
+    if (auto *DS = dyn_cast<DeclStmt>(S)) {
+      for (const Decl *D : DS->decls())
+        if (auto *VD = dyn_cast<VarDecl>(D)) {
+          std::string N = VD->getNameAsString();
+          unsigned K = ++Count[N];
+          LocalNames[VD] = K == 1 ? N : N + "#" + std::to_string(K);
+        }
+    }
+    for (const Stmt *C : S->children()) collectLocals(C, Count);
+  }
+  std::string localName(const VarDecl *VD) {
+    auto It = LocalNames.find(VD);
+    if (It != LocalNames.end()) return It->second;
+    return VD->getNameAsString();
+  }
 
   Emitter(ASTContext &C, OStream &J) : Ctx(C), SM(C.getSourceManager()), J(J) {}
 
@@ -243,7 +262,8 @@ struct Emitter {
         J.attribute("k", "ref");
         commonExprAttrs(E, false);
         const ValueDecl *D = DR->getDecl();
-        J.attribute("n", D->getNameAsString());
+        if (auto *LV = dyn_cast<VarDecl>(D)) J.attribute("n", localName(LV));
+        else J.attribute("n", D->getNameAsString());
         if (auto *PV = dyn_cast<ParmVarDecl>(D)) {
           J.attribute("rk", "p");
           J.attribute("pi", (int64_t)PV->getFunctionScopeIndex());
@@ -460,7 +480,7 @@ struct Emitter {
       for (const Decl *D : DS->decls()) {
         if (auto *VD = dyn_cast<VarDecl>(D)) {
           J.objectBegin();
-          J.attribute("n", VD->getNameAsString());
+          J.attribute("n", localName(VD));
           J.attribute("t", typeStr(VD->getType()));
           if (VD->isStaticLocal()) J.attribute("static", true);
           if (VD->hasInit()) child("init", VD->getInit());
@@ -544,6 +564,8 @@ struct Emitter {
     Where.clear();
     Ids.clear();
     Covered.clear();
+    LocalNames.clear();
+    { std::map<std::string, unsigned> Count; collectLocals(Body, Count); }
     CurFn = FD;
     for (const CFGBlock *B : *G) {
       unsigned I = 0;
